@@ -127,6 +127,7 @@ func checkC06(w *World, r *Run) {
 	}
 	checkC06Markers(w, r)
 	checkC06EarlyStop(w, r)
+	checkC06ContinuationWins(w, r)
 	r.NotCovered("behaviour of the paging loops over all key sets and page sizes; collation of key comparison in the database (binary vs locale); common-prefix roll-up arithmetic")
 }
 
